@@ -4,7 +4,9 @@ use std::collections::{BTreeMap, BTreeSet};
 use std::hash::{Hash, Hasher};
 use std::time::Instant;
 
-pub const VERIF_DIR: &str = "/verif";
+pub fn verif_dir() -> String {
+    std::env::var("VERIF_OUT").unwrap_or_else(|_| "/verif".to_string())
+}
 
 #[derive(Clone, Copy, PartialEq, Eq, Debug)]
 pub enum Tier {
@@ -168,7 +170,7 @@ impl Report {
             "wall_s": wall,
             "violations": unlisted,
         });
-        let dir = format!("{VERIF_DIR}/evidence");
+        let dir = format!("{}/evidence", verif_dir());
         let _ = std::fs::create_dir_all(&dir);
         let path = format!("{dir}/{}.json", self.prop);
         std::fs::write(&path, serde_json::to_string_pretty(&ev).unwrap()).expect("write evidence");
@@ -205,7 +207,7 @@ pub fn hash_str(s: &str) -> String {
 }
 
 fn write_replay(prop: &str, sig: &str, v: &Violation) -> String {
-    let dir = format!("{VERIF_DIR}/replays/{prop}");
+    let dir = format!("{}/replays/{prop}", verif_dir());
     let _ = std::fs::create_dir_all(&dir);
     let path = format!("{dir}/{}.json", hash_str(sig));
     let body = json!({"property": prop, "signature": sig, "what": v.what, "case": v.case});
@@ -222,7 +224,7 @@ pub struct Known {
 }
 
 pub fn load_known(prop: &str) -> Vec<Known> {
-    let path = format!("{VERIF_DIR}/known_findings.jsonl");
+    let path = "/verif/known_findings.jsonl".to_string();
     let Ok(text) = std::fs::read_to_string(path) else { return vec![] };
     text.lines()
         .filter(|l| !l.trim().is_empty() && !l.trim_start().starts_with('#'))
